@@ -91,7 +91,10 @@ fn tuples(n: usize, k: usize) -> Vec<Vec<usize>> {
 }
 
 fn cases(thorough: bool) -> Vec<Case> {
-    let p = pool();
+    let base_pool = pool();
+    // in the native sweep the receiver is bound first, and the arguments may be the receiver itself or
+    // hold it (a map inserted into itself, a vec pushed onto itself, an iterator mapped over itself, ...)
+    let p: Vec<(&'static str, &'static str)> = base_pool.iter().cloned().chain([("the_receiver", "recv"), ("tuple_holding_the_receiver", "(1, recv)"), ("vec_holding_the_receiver", "[recv]")]).collect();
     let mut out = Vec::new();
     // (i) native sweep
     for (class, recv, methods) in natives() {
@@ -130,8 +133,8 @@ fn cases(thorough: bool) -> Vec<Case> {
                         let names: Vec<String> = (0..t.len()).map(|k| format!("a{}", k)).collect();
                         let call = format!("recv.{}({})", m, names.join(", "));
                         let src = format!(
-                            "{}\n{}{}var recv = nil;\ntry {{ recv = {}; }} catch e {{ print(\"receiver construction failed\"); }}\nvar before = String.from([{}]);\ntry {{\n  var r = {};\n  print(\"completed\");\n}} catch e {{\n  print(\"caught\");\n  print(type(e));\n}}\nprint(String.from([{}]) == before);\ntry {{\n  var r = {};\n  print(\"completed\");\n}} catch e {{\n  print(\"caught\");\n  print(type(e));\n}}\nprint(\"end\");\n",
-                            PRELUDE, setup.replace("\n  ", "\n"), binds, recv_expr, names.join(", "), call, names.join(", "), call
+                            "{}\n{}var recv = nil;\ntry {{ recv = {}; }} catch e {{ print(\"receiver construction failed\"); }}\n{}var before = String.from([{}]);\ntry {{\n  var r = {};\n  print(\"completed\");\n}} catch e {{\n  print(\"caught\");\n  print(type(e));\n}}\nprint(String.from([{}]) == before);\ntry {{\n  var r = {};\n  print(\"completed\");\n}} catch e {{\n  print(\"caught\");\n  print(type(e));\n}}\nprint(\"end\");\n",
+                            PRELUDE, setup.replace("\n  ", "\n"), recv_expr, binds, names.join(", "), call, names.join(", "), call
                         );
                         out.push(Case {
                             family: "native_sweep",
@@ -145,6 +148,32 @@ fn cases(thorough: bool) -> Vec<Case> {
             }
         }
     }
+    // (i') every native reached through `super` from an instance method and from a static method of a class
+    // derived from the built-in class: the receiver is then an instance of that class, or the class object
+    for (class, recv, methods) in natives() {
+        if ["StringClass", "FiberClass", "ErrorClass", "StopIterClass", "Instance", "Num", "Class"].contains(&class) {
+            continue;
+        }
+        let small = ["nil", "1", "\"s\"", "[1]", "(|| 1)"];
+        for (m, arity) in &methods {
+            let params: Vec<String> = (0..*arity).map(|k| format!("p{}", k)).collect();
+            let mut arg_tuples: Vec<Vec<&str>> = vec![vec![]];
+            for _ in 0..*arity {
+                arg_tuples = arg_tuples.into_iter().flat_map(|t| small.iter().map(move |v| { let mut u = t.clone(); u.push(*v); u })).collect();
+            }
+            for args in arg_tuples {
+                for via in ["instance", "static"] {
+                    let decl = format!(
+                        "var D = type({});\n#[constructor(new), derive(D)] class X {{\n  fn i(self{}{}) {{ return super.{}({}); }}\n  #[static] fn s({}) {{ return super.{}({}); }}\n}}\n",
+                        recv, if params.is_empty() { "" } else { ", " }, params.join(", "), m, params.join(", "), params.join(", "), m, params.join(", ")
+                    );
+                    let call = if via == "instance" { format!("X.new().i({})", args.join(", ")) } else { format!("X.s({})", args.join(", ")) };
+                    out.push(Case { family: "native_through_super", cell: format!("{}.{} via {} ({})", class, m, via, args.join(",")), source: wrap(&format!("{}var r = {};", decl, call)), derived_receiver: true, raw: false });
+                }
+            }
+        }
+    }
+    let p = base_pool;
     for (name, e) in &p {
         // global natives
         for f in ["type", "print", "clock"] {
@@ -450,7 +479,7 @@ pub fn run(ctx: &Ctx) -> Report {
     report.cov("traces_validated_against_impl", json!(acc.evaluations));
     report.cov("distinct_nontrivial", json!(acc.cells.len()));
     report.cov("exhaustive", json!(true));
-    report.cov("rule", json!("native sweep: every built-in method of every value class (and the class-side methods of String, Fiber, Error, StopIter) on a receiver of the right class and on an instance of a class derived from it, with every argument tuple of the native's arity over a 43-value adversarial pool (quick tier: a third of the two-argument tuples on derived receivers), plus one argument fewer and one more; operator sweep: 20 unary constructs x every pool value, 6 binary constructs x every ordered pair, slices over 8x8 bounds; resource grid: recursion depth {1..70} x frame width {1..250} and wide argument lists, nesting ladders to depth 10^4 for nine data shapes on the checked runner and to 2x10^5 / 10^6 on the optimised runner on a thread with an ordinary 8 MiB stack (tracing, printing, comparing, hashing and dropping data that deep), every uncaught-error program of C17's generator (the error report must not panic), 23 self-reference / mutation-during-iteration / fiber misuse programs. oracle: the run ends Ok or with a reported error; never a panic, crash or hang; a failing built-in call wrapped in try/catch reaches the handler with an instance of an error class. distinct = distinct (construct, argument-kind tuple) cells."));
+    report.cov("rule", json!("native sweep: every built-in method of every value class (and the class-side methods of String, Fiber, Error, StopIter) on a receiver of the right class and on an instance of a class derived from it, with every argument tuple of the native's arity over a 46-value adversarial pool (43 values plus the receiver itself, a tuple and a vec holding it) (quick tier: a third of the two-argument tuples on derived receivers), plus one argument fewer and one more; every native reached through super from an instance method and from a static method of a class derived from the built-in class; operator sweep: 20 unary constructs x every pool value, 6 binary constructs x every ordered pair, slices over 8x8 bounds; resource grid: recursion depth {1..70} x frame width {1..250} and wide argument lists, nesting ladders to depth 10^4 for nine data shapes on the checked runner and to 2x10^5 / 10^6 on the optimised runner on a thread with an ordinary 8 MiB stack (tracing, printing, comparing, hashing and dropping data that deep), every uncaught-error program of C17's generator (the error report must not panic), 23 self-reference / mutation-during-iteration / fiber misuse programs. oracle: the run ends Ok or with a reported error; never a panic, crash or hang; a failing built-in call wrapped in try/catch reaches the handler with an instance of an error class. distinct = distinct (construct, argument-kind tuple) cells."));
     report.cov("bounds", json!({"pool_values": pool().len(), "cases": n}));
     report.cov("by_family", json!(acc.by_family));
     report.cov("outcome_histogram", json!(acc.outcomes));
